@@ -11,7 +11,6 @@ namespace Vegeta.Model.Codec
 open Vegeta.Go
 
 def eJSON : Nat := 6
-def eEOF : Nat := 7
 
 /-! ### UTF-8 -/
 
